@@ -354,6 +354,9 @@ class Report:
         self.rule = ""
         self.tlc_runs = []
         self.wd = workdir(pid)
+        for f in os.listdir(self.wd):
+            if f.startswith('viol-'):
+                os.unlink(os.path.join(self.wd, f))
 
     def add_tlc(self, name, r):
         self.states += r.distinct
